@@ -284,3 +284,167 @@ def run(chk):
                                     exempt=EXEMPT)
     chk.floor('constructor / factory call sites', n, 20)
     chk.assume('acceptance = HL7 lexical definition and text preservation depend on datetime.strptime / Decimal / int and are not decided')
+
+    # ---- M: what the length guard measures and who reaches it
+    chk.rule('C13-M', 'the STRICT length guard of BaseDataType.__init__ compares the length of the value\'s text with '
+                      'max_length under no further condition; every textual / numeric datatype constructor reaches it on '
+                      'every normal path with its own value; NM and SI pass the HL7 maxima 16 and 4')
+    length_guard(chk, ix)
+
+
+TEXT_FORMS = ("'{0}'.format(%s)", "'{}'.format(%s)", 'str(%s)', "'%%s' %% %s", 'format(%s)', "'%%s' %% (%s,)", 'text_type(%s)')
+HL7_MAX = {'NM': 16, 'SI': 4}      # HL7 v2 chapter 2A (also stated in the class documentation)
+
+
+def is_text_length(expr, var, fi, ix, cls_scope, depth=0):
+    """expr denotes the number of characters of the text of `var`: len(<text form of var>), or a call of a method of the
+    datatype hierarchy every implementation of which returns such a length of its parameter.  Returns (ok, why)."""
+    if isinstance(expr, ast.Call) and norm(expr.func) == 'len' and len(expr.args) == 1:
+        a = norm(expr.args[0])
+        if any(a == f % var for f in TEXT_FORMS):
+            return True, ''
+        if isinstance(expr.args[0], ast.Name):
+            src = [n.value for n in own_nodes(fi.node) if isinstance(n, ast.Assign) and len(n.targets) == 1 and
+                   norm(n.targets[0]) == a]
+            if src and all(any(norm(v) == f % var for f in TEXT_FORMS) for v in src):
+                return True, ''
+        return False, '`%s` is not the length of the text of `%s`' % (norm(expr)[:60], var)
+    if isinstance(expr, ast.Call) and isinstance(expr.func, ast.Attribute) and norm(expr.func.value) == 'self' and \
+            len(expr.args) == 1 and norm(expr.args[0]) == var and depth < 3:
+        m = expr.func.attr
+        impls = {}
+        for ci in cls_scope:
+            fm = ci.find_method(m)
+            if fm is not None:
+                impls[fm.qualname] = fm
+        if not impls:
+            return False, 'method %s not found in the datatype hierarchy' % m
+        for fq, fm in sorted(impls.items()):
+            params = [a.arg for a in fm.node.args.args]
+            if len(params) != 2:
+                return False, '%s: unexpected signature' % fq
+            rets = [n for n in own_nodes(fm.node) if isinstance(n, ast.Return)]
+            if not rets:
+                return False, '%s returns nothing' % fq
+            for r in rets:
+                ok, why = is_text_length(r.value, params[1], fm, ix, cls_scope, depth + 1) if r.value is not None else (False, 'bare return')
+                if not ok:
+                    return False, '%s (%s:%d): %s' % (fq, fm.module.relpath, r.lineno, why)
+        return True, ''
+    return False, '`%s` is not the length of the text of `%s`' % (norm(expr)[:60], var)
+
+
+def length_guard(chk, ix):
+    from ..cfg import cfg_of, ENTRY, EXIT
+    bdt = ix.cls('base_datatypes.BaseDataType')
+    dtd = ix.cls('base_datatypes.DateTimeDataType')
+    init = ix.func('base_datatypes.BaseDataType.__init__')
+    scope = [ci for ci in ix.subclasses(bdt) if dtd not in ci.mro]
+    chk.count('textual / numeric datatype classes (all versions)', len(scope))
+    chk.floor('textual / numeric datatype classes', len(scope), 20)
+    raises = [n for n in own_nodes(init.node) if isinstance(n, ast.Raise) and n.exc is not None and
+              norm(n.exc).startswith('MaxLengthReached')]
+    if not raises:
+        chk.fail('C13-M', 'BaseDataType.__init__ raises MaxLengthReached', 'no `raise MaxLengthReached` left in the constructor',
+                 init.loc, key='C13-M|guard|absent')
+        return
+    for r in raises:
+        conds = []
+        x = r
+        neg = False
+        while getattr(x, '_parent', None) is not None and x is not init.node:
+            p = x._parent
+            if isinstance(p, ast.If):
+                if x in p.body:
+                    conds.append(p.test)
+                elif x in p.orelse:
+                    neg = True
+            elif isinstance(p, (ast.For, ast.While, ast.Try, ast.With, ast.ExceptHandler)):
+                neg = True
+            x = p
+        conj = []
+        for t in conds:
+            conj.extend(t.values if isinstance(t, ast.BoolOp) and isinstance(t.op, ast.And) else [t])
+        cmp_ = None
+        other = []
+        for t in conj:
+            tn = norm(t)
+            if 'is_strict' in tn and isinstance(t, ast.Call):
+                continue
+            if tn in ('self.max_length is not None', 'max_length is not None', 'self.max_length', 'max_length'):
+                continue
+            if isinstance(t, ast.Compare) and len(t.ops) == 1 and cmp_ is None:
+                l, o, rr = t.left, t.ops[0], t.comparators[0]
+                if isinstance(o, ast.Gt) and norm(rr) in ('self.max_length', 'max_length'):
+                    cmp_ = l
+                    continue
+                if isinstance(o, ast.Lt) and norm(l) in ('self.max_length', 'max_length'):
+                    cmp_ = rr
+                    continue
+            other.append(tn)
+        if neg or other:
+            chk.fail('C13-M', 'length guard of BaseDataType.__init__ is unconditional under STRICT',
+                     'the refusal additionally depends on %s' % (other[:2] or 'an else/loop/try context'), init.loc,
+                     key='C13-M|guard|extra-condition|%s' % ';'.join(other[:2]))
+        else:
+            chk.ok('C13-M', 'length guard of BaseDataType.__init__ is unconditional under STRICT', '', init.loc, key='C13-M|guard|cond')
+        if cmp_ is None:
+            chk.fail('C13-M', 'length guard compares a length with max_length', 'no `<length> > max_length` comparison guards the raise',
+                     init.loc, key='C13-M|guard|compare')
+            continue
+        ok, why = is_text_length(cmp_, 'value', init, ix, scope)
+        chk.ob('C13-M', 'length guard measures the characters of the value\'s text', ok, why, init.loc,
+               key='C13-M|guard|measure|%s' % why.split(':')[0][:60])
+    # value is not rebound before the guard
+    rebinds = [n for n in own_nodes(init.node) if isinstance(n, ast.Assign) and any(norm(t) == 'value' for t in n.targets)]
+    chk.ob('C13-M', 'BaseDataType.__init__ measures the value it was given', not rebinds,
+           '`value` is rebound before the guard (line %s)' % [n.lineno for n in rebinds], init.loc, key='C13-M|guard|rebind')
+
+    # constructors reach the guard
+    n_ctor = 0
+    for ci in sorted(scope, key=lambda c: c.qualname):
+        fi = ci.methods.get('__init__') if hasattr(ci, 'methods') else None
+        if fi is None or ci is bdt:
+            continue
+        n_ctor += 1
+        sup = [n for n in own_nodes(fi.node) if isinstance(n, ast.Call) and isinstance(n.func, ast.Attribute) and
+               n.func.attr == '__init__']
+        construct = '%s.__init__ reaches the base length guard' % ci.qualname
+        if not sup:
+            chk.fail('C13-M', construct, 'no call of the base constructor: the length guard never runs for this datatype',
+                     fi.loc, key='C13-M|ctor|%s|no-super' % ci.qualname)
+            continue
+        g = cfg_of(fi)
+        ev = {g.node_for(x) for x in sup if g.node_for(x)}
+        inc = g.reach_incomplete(ENTRY, ev, labels_ok=lambda a, b, lab: lab != 'exc')
+        ok = EXIT not in inc
+        chk.ob('C13-M', construct, ok, 'a normal path through the constructor returns without calling the base constructor',
+               fi.loc, key='C13-M|ctor|%s|path' % ci.qualname)
+        for x in sup:
+            args = [norm(a) for a in x.args]
+            if args and args[0] == 'self':
+                args = args[1:]
+            okv = bool(args) and args[0] == 'value' or any(k.arg == 'value' and norm(k.value) == 'value' for k in x.keywords)
+            chk.ob('C13-M', '%s.__init__ hands its own value to the base constructor' % ci.qualname, okv,
+                   'passes `%s`' % (args[:1] or ['nothing']), fi.loc, key='C13-M|ctor|%s|value' % ci.qualname)
+        if ci.name in HL7_MAX and ci.module.name == 'base_datatypes':
+            got = None
+            for x in sup:
+                if len(x.args) >= 2 and isinstance(x.args[1], ast.Constant):
+                    got = x.args[1].value
+                for k in x.keywords:
+                    if k.arg == 'max_length' and isinstance(k.value, ast.Constant):
+                        got = k.value.value
+            if got is None:
+                pi = ci.mro[1].find_method('__init__') if len(ci.mro) > 1 else None
+                if pi is not None:
+                    a = pi.node.args
+                    names = [z.arg for z in a.args]
+                    if 'max_length' in names:
+                        i = names.index('max_length') - (len(names) - len(a.defaults))
+                        if 0 <= i < len(a.defaults) and isinstance(a.defaults[i], ast.Constant):
+                            got = a.defaults[i].value
+            chk.ob('C13-M', '%s is limited to %d characters' % (ci.name, HL7_MAX[ci.name]), got == HL7_MAX[ci.name],
+                   'the constructor passes max_length=%r' % (got,), fi.loc, key='C13-M|max|%s|%r' % (ci.name, got))
+    chk.floor('datatype constructors checked for reaching the guard', n_ctor, 18)
+
